@@ -44,6 +44,36 @@ pub fn make_tokenizer(dict: Dictionary, opts: Opts) -> Result<Tokenizer, String>
     }
 }
 
+/// The same final option values reached through a detour of earlier option calls
+/// (options set more than once, switched on and off again, in another order).
+pub fn make_tokenizer_detour(dict: Dictionary, opts: Opts, detour: usize) -> Result<Tokenizer, String> {
+    match guard(|| -> Result<Tokenizer, vibrato::errors::VibratoError> {
+        let t = Tokenizer::new(dict);
+        let t = match detour % 3 {
+            0 => {
+                // the opposite values first
+                let t = t.ignore_space(!opts.ignore_space)?.max_grouping_len(opts.mgl + 1);
+                t.ignore_space(opts.ignore_space)?.max_grouping_len(opts.mgl)
+            }
+            1 => {
+                // other order, every option twice
+                let t = t.max_grouping_len(opts.mgl).ignore_space(opts.ignore_space)?;
+                t.ignore_space(opts.ignore_space)?.max_grouping_len(7).max_grouping_len(opts.mgl)
+            }
+            _ => {
+                // on, off, final; 0 (unlimited), 3, final
+                let t = t.ignore_space(true)?.ignore_space(false)?.ignore_space(opts.ignore_space)?;
+                t.max_grouping_len(0).max_grouping_len(3).max_grouping_len(opts.mgl)
+            }
+        };
+        Ok(t)
+    }) {
+        Err(p) => Err(format!("PANIC {p}")),
+        Ok(Err(e)) => Err(format!("Err {e}")),
+        Ok(Ok(t)) => Ok(t),
+    }
+}
+
 /// Reads the tokens of a worker through `token(i)`.
 pub fn read_tokens(w: &Worker) -> Vec<Tok> {
     let mut v = vec![];
